@@ -41,6 +41,7 @@ def run(ctx):
     ctx.rule('C20-R1', 'log2i<IntT> for the 8 integer types: result = (W-1) - clz(v) with W the bit width of the builtin\'s parameter, v widened without loss, never routed through a floating type narrower than IntT; gcd is the Euclid loop', 16)
     ctx.rule('C20-R2', 'Vector2/3/4: every binary and compound operator is component-wise with its own operator token; == conjoins all components; < is the lexicographic ladder; dot/norm2 sum like-indexed products; cross has the cyclic pattern; at(i) indexes the object as an array of T; Matrix4 element-wise operators likewise', 70)
     ctx.rule('C20-R3', 'Matrix4: M*v uses m[j][i] as the coefficient of v_j in row i; M*N accumulates this.m[z][y]*other.m[x][z] into res.m[x][y]; transposition swaps indices; invert applies every row operation to both matrices over all four columns', 12)
+    ctx.rule('C20-R6', 'no const reference (local, or parameter of a local helper) in the vector / matrix code is bound to an element that is overwritten while the reference is still read', 1)
     ctx.rule('C20-R5', 'random_data: every copy writes through the one destination cursor the refill loop advances; each turn copies, subtracts and advances by the same amount before refilling; the tail takes exactly the remaining bytes from the pool', 3)
     ctx.rule('C20-R4', 'random_int: every return is low + (U % range) with U an unsigned random value at least as wide as the range class chosen by the thresholds', 5)
     w = ctx.unit(witness_unit('c20.cc'))
@@ -77,6 +78,14 @@ def run(ctx):
                 from poly import Poly as _Poly
                 PL_ = _Poly(f, w)
                 cpoly = PL_.poly(s['inner'][0]) if s.get('kind') == 'BinaryOperator' and s.get('inner') else None
+                # (W-1) ^ clz(v) is (W-1) - clz(v): clz is in [0, W-1] and W-1 has all of those bits set
+                if s.get('kind') == 'BinaryOperator' and s.get('opcode') == '^' and s.get('inner'):
+                    for ci_, oi_ in ((0, 1), (1, 0)):
+                        cp_ = PL_.poly(s['inner'][ci_])
+                        if (cp_ == {} or list(cp_) == [()]) and any(x is cl[0] for x in walk(s['inner'][oi_])) and cp_.get((), 0) == W - 1 and W & (W - 1) == 0:
+                            s = {'kind': 'BinaryOperator', 'opcode': '-', 'inner': [s['inner'][ci_], s['inner'][oi_]]}
+                            cpoly = cp_
+                            break
                 ok = s.get('kind') == 'BinaryOperator' and s.get('opcode') == '-' and cpoly is not None and (cpoly == {} or list(cpoly) == [()]) and any(x is cl[0] for x in walk(s['inner'][1]))
                 if ok:
                     C = cpoly.get((), 0)
@@ -295,6 +304,30 @@ def run(ctx):
                 full = len(lp) == 1 and N(for_parts(lp[0])[2]) == '(z < 16)'
                 ctx.check(st == want and full, R, 'Matrix4|%s(%s)|elementwise' % (nm, 'matrix' if mat else 'scalar'), f, 'element z = this.v[z] %s other over all 16 elements' % tok, '%s is not element-wise over all 16 entries: %s' % (nm, st))
     # ---------------- R3
+    with ctx.section('C20-R6', 'Vector-inl.hh'):
+        R = 'C20-R6'
+        # a const reference to an element that the function goes on to overwrite is not a captured value
+        n_al = 0
+        for f in w.functions:
+            q = strip_targs(w.qualname(f))
+            if not (q.startswith('phosg::Matrix4') or q.startswith('phosg::Vector')) or is_dependent_pattern(f, w) or body_of(f) is None:
+                continue
+            for vd, wn, rd in aliased_reference_locals(f):
+                n_al += 1
+                ctx.bad(R, '%s|aliased-reference|%s' % (w.qualname(f), vd.get('name')), vd, '`%s` is a reference to %s, which `%s` overwrites while the reference is still read at line %s: from that point it no longer holds the value it was meant to capture (take a copy)' % (vd.get('name'), src_text(kids(vd)[-1], 40), src_text(wn, 50), rd.get('_line')))
+        if not n_al:
+            ctx.ok(R, 'no-aliased-reference-locals', 'Vector-inl.hh', 'no const reference local aliases an element written while it is read', nontrivial=False)
+
+        for f in w.functions:
+            q = strip_targs(w.qualname(f))
+            if not (q.startswith('phosg::Matrix4') or q.startswith('phosg::Vector')) or is_dependent_pattern(f, w) or body_of(f) is None:
+                continue
+            for p_, c_, wn, verdict in aliased_reference_params(f):
+                key = '%s|aliased-reference-parameter|%s' % (w.qualname(f), p_.get('name'))
+                if verdict == 'alias':
+                    ctx.bad(R, key, c_, 'the helper takes `%s` by const reference and is called with %s, an element of the object it modifies (`%s`) while it still reads the parameter: the factor changes in the middle of the row operation (take it by value)' % (p_.get('name'), src_text(kids(c_)[2 + [x_['id'] for x_ in params_of(enclosing(wn, ('CXXMethodDecl',)) or {'inner': []})].index(p_['id'])] if enclosing(wn, ('CXXMethodDecl',)) is not None else c_, 40), src_text(wn, 50)))
+                else:
+                    ctx.undecided(R, key, c_, 'a const reference parameter may alias an element the helper writes (indices not comparable)')
     with ctx.section('C20-R3', 'Vector-inl.hh'):
         R = 'C20-R3'
         for T in ('long', 'double'):
@@ -368,18 +401,6 @@ def run(ctx):
                         onesided = r_[1] in ('<', '<=', '>', '>=') and any('row_divisor' in N(s_) for s_ in sides) and not any(_abs(x_) for s_ in sides for x_ in walk(s_))
                         ctx.check(not onesided, R, 'Matrix4<%s>|invert|pivot-test-two-sided' % T, n_, 'the pivot is refused only for zero / small magnitude',
                                   'the pivot test `%s` is one-sided: every pivot of that sign is refused, so invertible (e.g. diagonally dominant with a negative diagonal entry) matrices throw' % src_text(n_, 60))
-
-        # a const reference to an element that the function goes on to overwrite is not a captured value
-        n_al = 0
-        for f in w.functions:
-            q = strip_targs(w.qualname(f))
-            if not (q.startswith('phosg::Matrix4') or q.startswith('phosg::Vector')) or is_dependent_pattern(f, w) or body_of(f) is None:
-                continue
-            for vd, wn, rd in aliased_reference_locals(f):
-                n_al += 1
-                ctx.bad(R, '%s|aliased-reference|%s' % (w.qualname(f), vd.get('name')), vd, '`%s` is a reference to %s, which `%s` overwrites while the reference is still read at line %s: from that point it no longer holds the value it was meant to capture (take a copy)' % (vd.get('name'), src_text(kids(vd)[-1], 40), src_text(wn, 50), rd.get('_line')))
-        if not n_al:
-            ctx.ok(R, 'no-aliased-reference-locals', 'Vector-inl.hh', 'no const reference local aliases an element written while it is read', nontrivial=False)
 
     # ---------------- R4
     with ctx.section('C20-R4', 'Vector-inl.hh'):
@@ -490,8 +511,17 @@ def run(ctx):
                                 e = strip(kids(e)[0])
                             adva.append(nf(e['inner'][1]) if e.get('kind') == 'BinaryOperator' and e.get('opcode') == '+' else '?')
                 refill = [x for x in walk(lp) if x.get('kind') == 'CXXOperatorCallExpr' and call_name(x) == 'operator=' and nf(kids(x)[1]) == srcn.replace('.data()', '')]
-                order = bool(refill) and all(y.get('_off', 0) < refill[0].get('_off', 0) for y in [lcopy[0]] + [a for a in advs if any(a is z for z in walk(lp))])
-                okl = subs == [n_] and adva == [n_] and order and nf(while_parts(lp)[0]) in {'(%s < %s)' % (n_, c_) for c_ in cnt_names}
+                def _before_refill(y, amount_expr):
+                    # the statement precedes the refill, or its amount is a local captured before the refill
+                    if y.get('_off', 0) < refill[0].get('_off', 0):
+                        return True
+                    rd_ = ref_decl(amount_expr) if amount_expr is not None else None
+                    vd_ = next((v_ for v_ in walk(lp) if v_.get('kind') == 'VarDecl' and rd_ is not None and v_.get('id') == rd_.get('id')), None)
+                    return vd_ is not None and vd_.get('_off', 0) < refill[0].get('_off', 0) and 'const' in (qtype(vd_) or '')
+                acct = [(lcopy[0], call_args(lcopy[0])[2])] + [(a, a['inner'][1]) for a in advs if any(a is z for z in walk(lp)) and a.get('opcode') == '+='] + \
+                    [(x, x['inner'][1]) for x in walk(lp) if x.get('kind') == 'CompoundAssignOperator' and x.get('opcode') == '-=' and (ref_decl(x['inner'][0]) or {}).get('id') in cnt_ids]
+                order = bool(refill) and all(_before_refill(y, e_) for y, e_ in acct) and all(y.get('_off', 0) < refill[0].get('_off', 0) for y in [a for a in advs if any(a is z for z in walk(lp)) and a.get('opcode') != '+='])
+                okl = subs == [n_] and adva == [n_] and order and nf(while_parts(lp)[0]) in {'(%s < %s)' % (n_, c_) for c_ in cnt_names} | {'(%s > %s)' % (c_, n_) for c_ in cnt_names}
                 why = 'loop copies %s bytes, subtracts %s, advances by %s, refill-after-accounting=%s, condition %s' % (n_, subs, adva, order, nf(while_parts(lp)[0]))
             ctx.check(okl, R, 'random_data|refill-accounting', lp, 'each turn copies the whole pool, subtracts and advances by the same amount, then refills', 'the refill loop accounting is inconsistent: ' + why)
         tail = [c for c in copies if not any(c is y for lp in loops for y in walk(lp))]
